@@ -175,7 +175,11 @@ def prove(ex, name, formula, detail='', env=None):
     known = None
     if v == 'sat':
         full = ex.root.qualname + '/' + name
-        for fid, wclause in ex.world.findings.get(full, []):
+        cands = list(ex.world.findings.get(full, []))
+        if getattr(ex.world, 'variant', None):
+            # obligations of a handle-kind variant are recorded as <function>@<variant>/<obligation>
+            cands += ex.world.findings.get('%s@%s/%s' % (ex.root.qualname, ex.world.variant, name), [])
+        for fid, wclause in cands:
             try:
                 wit = ex.spec_bool(wclause, env, ex.old_store) if wclause else z3.BoolVal(True)
             except ContractError as e:
